@@ -227,6 +227,8 @@ func (e StdEng) reduce(
 
 		retVal = a
 		dimsReduced := 0
+		// sort a copy: along is the caller's slice
+		along = append([]int(nil), along...)
 		sort.Slice(along, func(i, j int) bool { return along[i] < along[j] })
 
 		for _, axis := range along {
